@@ -7,6 +7,8 @@ import (
 	"crypto/sha256"
 	"encoding/json"
 	"fmt"
+	"os"
+	"path/filepath"
 	"sort"
 	"strings"
 	"sync"
@@ -16,6 +18,8 @@ import (
 	"cuelang.org/go/cue/cuecontext"
 	"cuelang.org/go/cue/format"
 	"cuelang.org/go/encoding/yaml"
+	"cuelang.org/go/internal/core/adt"
+	"cuelang.org/go/internal/value"
 	"cuelang.org/go/verifh/gen"
 	"cuelang.org/go/verifh/mon"
 )
@@ -164,12 +168,39 @@ func c19fingerprints(ctx *cue.Context, v cue.Value) []string {
 	return out
 }
 
+// c19unfinished reports whether some vertex of the evaluated value was not finalized by the evaluator.
+func c19unfinished(v cue.Value) bool {
+	v.Validate()
+	root := value.Vertex(v)
+	if root == nil {
+		return false
+	}
+	seen := map[*adt.Vertex]bool{}
+	var walk func(x *adt.Vertex, depth int) bool
+	walk = func(x *adt.Vertex, depth int) bool {
+		if x == nil || seen[x] || depth > 40 {
+			return false
+		}
+		seen[x] = true
+		if fmt.Sprint(x.Status()) != "finalized" {
+			return true
+		}
+		for _, a := range x.Arcs {
+			if walk(a, depth+1) {
+				return true
+			}
+		}
+		return false
+	}
+	return walk(root, 0)
+}
+
 func init() {
 	// sequential baseline: fresh context, one goroutine
 	batchOps["c19seq"] = func(cs bcase) map[string]any {
 		ctx := cuecontext.New()
 		v := ctx.CompileString(cs.Src)
-		return map[string]any{"fp": c19fingerprints(ctx, v)}
+		return map[string]any{"fp": c19fingerprints(ctx, v), "unfinished": c19unfinished(v)}
 	}
 	// concurrent phase on one shared value
 	batchOps["c19conc"] = func(cs bcase) map[string]any {
@@ -324,7 +355,27 @@ func init() {
 			}
 		}
 		base := c.RunBatch(seq, 60*time.Second)
-		got := c.RunBatch(conc, 120*time.Second)
+		// values with vertices the evaluator could not finalize when the value was built are evaluated again on
+		// access; their concurrent phases run in worker processes with their own race log (recorded finding)
+		unfinished := map[string]bool{}
+		var concFin, concUnf []bcase
+		for _, cs := range conc {
+			id := cs.ID[:strings.IndexByte(cs.ID, '/')]
+			if b := base[id]; b != nil && b.Status == "ok" && b.Out["unfinished"] == true {
+				unfinished[id] = true
+				concUnf = append(concUnf, cs)
+			} else {
+				concFin = append(concFin, cs)
+			}
+		}
+		c.Set("programs_with_unfinished_vertices", len(unfinished))
+		got := c.RunBatch(concFin, 120*time.Second)
+		unfPrefix := filepath.Join(os.Getenv("VERIF_RUNDIR"), "race-unfinished")
+		c.BatchEnv = []string{"GORACE=halt_on_error=0 log_path=" + unfPrefix}
+		for id, r := range c.RunBatch(concUnf, 120*time.Second) {
+			got[id] = r
+		}
+		c.BatchEnv = nil
 		toStrings := func(v any) []string {
 			l, _ := v.([]any)
 			out := make([]string, len(l))
@@ -362,6 +413,11 @@ func init() {
 				}
 				op := int(t[1].(float64))
 				if fmt.Sprint(t[2]) != want[op] {
+					if unfinished[id] {
+						c.Count("unfinished_value_result_differs", 1)
+						c.Violate("C19|unfinished-value", fmt.Sprintf("%s under %d goroutines returns something else than in a sequential run\n--- program\n%s", c19ops[op].name, G, trunc9(srcs[id], 1000)), rp)
+						break
+					}
 					c.Violate("C19|result|"+c19ops[op].name+"|"+monHash(srcs[id]), fmt.Sprintf("%s under %d goroutines returns something else than in a sequential run\n--- program\n%s", c19ops[op].name, G, trunc9(srcs[id], 1000)), rp)
 					break
 				}
@@ -369,6 +425,11 @@ func init() {
 			after := toStrings(g.Out["after"])
 			for i := range after {
 				if i < len(want) && after[i] != want[i] {
+					if unfinished[id] {
+						c.Count("unfinished_value_changed_after", 1)
+						c.Violate("C19|unfinished-value", fmt.Sprintf("the shared value answers %s differently after the concurrent phase\n--- program\n%s", c19ops[i].name, trunc9(srcs[id], 1000)), rp)
+						break
+					}
 					c.Violate("C19|changed-after|"+c19ops[i].name+"|"+monHash(srcs[id]), fmt.Sprintf("the shared value answers %s differently after the concurrent phase", c19ops[i].name), rp)
 					break
 				}
@@ -397,7 +458,23 @@ func init() {
 				c.Violate("C19|fresh-label", fmt.Sprintf("%v of %v calls using a label interned concurrently for the first time get a wrong answer: %v", w, n, r.Out["detail"]), map[string]any{"args": cs.Args})
 			}
 		}
+		mon.RaceClass = func(k string) string {
+			// both accesses inside the formatter's annotation pass or the AST position accessors it uses: the
+			// syntax trees of two Syntax() calls share comment and attribute nodes, format.Node annotates them
+			for _, side := range strings.Split(k, " || ") {
+				top := side
+				if i := strings.Index(side, "<"); i >= 0 {
+					top = side[:i]
+				}
+				if !strings.Contains(top, "internal/pretty") && !strings.Contains(top, "cue/ast.") {
+					return ""
+				}
+			}
+			return "C19|race|format-annotates-shared-syntax-nodes"
+		}
 		c.CheckRaceLogs(mon.RaceLogPrefix())
+		mon.RaceClass = nil
+		c.CheckRaceLogsAs(filepath.Join(os.Getenv("VERIF_RUNDIR"), "race-unfinished"), "C19|unfinished-value")
 		var ks []string
 		for k := range gHist {
 			ks = append(ks, fmt.Sprint(k))
